@@ -128,9 +128,24 @@ class LineFileBase(SeqProp):
                     if k == "new":
                         f = self.make(variant, src, index); out.append("ok")
                     elif k == "open":
-                        f.open(); out.append("ok")
+                        # open() / the context-manager entry, in turn
+                        if len(out) % 2:
+                            f.open()
+                        elif f.__enter__() is not f:
+                            raise RuntimeError("__enter__ did not return the file object")
+                        out.append("ok")
                     elif k == "close":
-                        f.close(); out.append("ok")
+                        # close() / leaving the context normally / leaving it through an exception raised in the body
+                        if len(out) % 3 == 0:
+                            f.close()
+                        elif len(out) % 3 == 1:
+                            f.__exit__(None, None, None)
+                        else:
+                            try:
+                                raise KeyError("with-body failed")
+                            except KeyError as e:
+                                f.__exit__(KeyError, e, e.__traceback__)
+                        out.append("ok")
                     elif k == "len":
                         out.append(f"ret {len(f)}")
                     elif k == "get":
@@ -182,7 +197,12 @@ class LineFileBase(SeqProp):
                         dst = self.path("saved.txt")
                         if os.path.exists(dst):
                             os.remove(dst)
-                        f.save(dst, le) if le != "\n" else f.save(dst)
+                        if len(out) % 2:
+                            f.save(dst, le) if le != "\n" else f.save(dst)
+                        else:
+                            # the documented other form of the target: an opened text file
+                            with open(dst, "w", newline="", encoding="utf-8") as fh:
+                                f.save(fh, le) if le != "\n" else f.save(fh)
                         data = open(dst, "rb").read().decode("utf-8")
                         line = "ret " + enc_str(data)
                         view = [unwrap(x) for x in f]
